@@ -29,8 +29,9 @@ def Plain (ops : List Op) : Prop := ∀ op ∈ ops, op.notPlain = false
 
 instance (ops : List Op) : Decidable (Plain ops) := by unfold Plain; infer_instance
 
-/-- no operation of the run comes from an embedded shell's throw-away importer -/
-def NoFresh (ops : List Op) : Prop := ∀ op ∈ ops, op.isFresh = false
+/-- no operation of the run comes from an embedded shell's throw-away importer, and no third-party step takes
+    pyflyby's *own* entries out of a hook list (see `removal_*` below for those) -/
+def NoFresh (ops : List Op) : Prop := ∀ op ∈ ops, op.isFresh = false ∧ op.removesPf = false
 
 instance (ops : List Op) : Decidable (NoFresh ops) := by unfold NoFresh; infer_instance
 
@@ -274,6 +275,9 @@ theorem foreignBase_cleanup_noPf : ∀ (ops : List Op) (b : Shell), (∀ e ∈ b
       | addAst k => exact h
       | rmAst k => exact h
       | other => exact h
+      | clearAst => exact h
+      | dropPfAst => exact h
+      | dropPfCleanup => exact fun e he => h e (List.mem_filter.mp he).1
     | enable e f => exact ih b h
     | disable => exact ih b h
     | loadExt f => exact ih b h
@@ -367,6 +371,98 @@ example :
       .disable]).sh.ast = [.ext 7] := by decide
 example : NoFresh [Op.enable false none, .foreign .rebindAst, .foreign (.addAst 7), .disable, .foreign (.rmAst 7)] := by
   decide
+
+/-! ## The error-withdrawn state and its exits; third parties removing pyflyby's own entries -/
+
+theorem run_snoc (cfg : Cfg) (s : St) (ops : List Op) (op : Op) :
+    run cfg s (ops ++ [op]) = step cfg (run cfg s ops) op := by
+  simp [run, List.foldl_append]
+
+/-- **C14_error_withdrawn_exits.**  After an internal error the importer is off *and* marked errored (third
+    state of the reference machine, reached by `Op.invoke h (.raises k)` — see `C14_two_state`).  From any such
+    reachable state: plain `enable()` refuses; `enable(even_if_previously_errored=True)` and `%reload_ext`
+    switch it on again with every hook installed (a cell auto-imports); `%load_ext` does so unless IPython
+    considers the extension loaded already, in which case it is a no-op. -/
+theorem C14_error_withdrawn_exits (cfg : Cfg) (s : St) (hs : Start s) (ops : List Op) (hops : Plain ops)
+    (hoff : (run cfg s ops).ai.state = .disabled) (herr : (run cfg s ops).ai.errored = true) :
+    (step cfg (run cfg s ops) (.enable false none)) = run cfg s ops ∧
+    cellAutoImports (step cfg (run cfg s ops) (.enable true none)) = true ∧
+    cellAutoImports (step cfg (run cfg s ops) (.reloadExt none)) = true ∧
+    ((run cfg s ops).sh.loaded = false → cellAutoImports (step cfg (run cfg s ops) (.loadExt none)) = true) ∧
+    ((run cfg s ops).sh.loaded = true → step cfg (run cfg s ops) (.loadExt none) = run cfg s ops) := by
+  have hi := reach_inv cfg hs hops
+  have on_of (op : Op) (hp : op.notPlain = false)
+      (hen : (refStep cfg (abs (run cfg s ops)) op).enabled = true) :
+      cellAutoImports (step cfg (run cfg s ops) op) = true := by
+    have hops' : Plain (ops ++ [op]) := by
+      intro o ho
+      rcases List.mem_append.mp ho with h | h
+      · exact hops o h
+      · simp at h; subst h; exact hp
+    have hc := (C14_cell_behaviour cfg s hs (ops ++ [op]) hops').1
+    rw [run_snoc] at hc
+    rw [hc, abs_step hi hs.clean op hp]
+    exact hen
+  refine ⟨?_, ?_, ?_, ?_, ?_⟩
+  · simp [step, enable, hoff, herr]
+  · exact on_of _ (by simp [Op.notPlain, Op.isFresh, Op.isForeign]) (by simp [refStep, refEnable, abs, hoff])
+  · apply on_of _ (by simp [Op.notPlain, Op.isFresh, Op.isForeign])
+    simp only [refStep, abs, hoff]
+    split <;> simp [refEnable]
+  · intro hl
+    exact on_of _ (by simp [Op.notPlain, Op.isFresh, Op.isForeign]) (by simp [refStep, refEnable, abs, hoff, hl])
+  · intro hl
+    simp [step, loadExt, hl]
+
+/-- **C14_recovers_after_removal.**  A third party may also take pyflyby's *own* entries out of the hook lists
+    (clear `ip.ast_transformers`, filter pyflyby's transformers away).  The disablers then find nothing to
+    remove (`list.remove` → ValueError, swallowed) and still commute with that step, so the next `disable`
+    lands in a legitimate start state whose lists are exactly what the third-party steps produce — no
+    error, nothing sticky — and every theorem above applies again from there (in particular a further
+    `enable` installs every hook and cells auto-import).  Steps between the removal and that `disable` are
+    not covered by a theorem (checked by K/O only). -/
+theorem C14_recovers_after_removal (cfg : Cfg) (hfix : cfg.resetDisabler = true) (s : St) (hs : Start s)
+    (ops : List Op) (hops : NoFresh ops) (f : Foreign) :
+    let st' := disable (step cfg (run cfg s ops) (.foreign f))
+    Start st' ∧ st'.ai.errored = (run cfg s ops).ai.errored ∧
+    st'.sh.jp = (foreignBase s.sh ops).jp ∧ st'.sh.ast = (applyForeign f (foreignBase s.sh ops)).ast ∧
+    st'.sh.cleanup = (applyForeign f (foreignBase s.sh ops)).cleanup := by
+  obtain ⟨hi, hc⟩ := reach_inv_foreign cfg hfix hs hops
+  have hl := hi.leaks
+  obtain ⟨leak, ecl, _, r⟩ := hl.cleanup
+  rw [r hfix, List.append_nil] at ecl
+  -- the shell `disable` produces: the disablers applied to the shell after the foreign step
+  have hsh : (disable (step cfg (run cfg s ops) (.foreign f))).sh = applyForeign f (undo (run cfg s ops)) := by
+    rcases hi.phase with ⟨h1, h2⟩ | ⟨h1, _, _⟩
+    · simp [step, disable, h1, undo, h2]
+    · simp only [step, disable, h1, reduceCtorEq, if_false]
+      exact foldr_applyD_applyForeign _ _ _
+  have hjp : (applyForeign f (undo (run cfg s ops))).jp = (foreignBase s.sh ops).jp := by
+    rw [applyForeign_jp]; exact hl.jp
+  have hast : (applyForeign f (undo (run cfg s ops))).ast = (applyForeign f (foreignBase s.sh ops)).ast := by
+    have := hl.ast; cases f <;> simp [applyForeign, this]
+  have hcl : (applyForeign f (undo (run cfg s ops))).cleanup = (applyForeign f (foreignBase s.sh ops)).cleanup := by
+    cases f <;> simp [applyForeign, ecl]
+  have hclean := applyForeign_clean f _ hc
+  simp only
+  refine ⟨⟨disable_state _, ?_, ?_, ⟨?_, ?_⟩⟩, ?_, by rw [hsh, hjp], by rw [hsh, hast], by rw [hsh, hcl]⟩
+  · rcases hi.phase with ⟨h1, h2⟩ | ⟨h1, _, _⟩
+    · simp [step, disable, h1, h2]
+    · simp [step, disable, h1]
+  · have hf := applyForeign_fresh f _ _ hi.fresh
+    rcases hi.phase with ⟨h1, h2⟩ | ⟨h1, _, _⟩
+    · simpa [step, disable, h1] using hf
+    · simp only [step, disable, h1, reduceCtorEq, if_false]
+      exact foldr_applyD_fresh _ _ _ hf
+  · intro j; rw [hsh, hjp]; rw [← applyForeign_jp f]; exact hclean.jp j
+  · intro e he; rw [hsh, hast] at he; exact hclean.ast e he
+  · simp [step, disable_errored]
+
+/-- the seeded scenario on the model: clear the list while enabled, disable, enable again -/
+example :
+    cellAutoImports (run Cfg.repaired St.init
+      [.enable false none, .foreign .clearAst, .disable, .enable false none]) = true ∧
+    (run Cfg.repaired St.init [.enable false none, .foreign .clearAst, .disable]).ai.errored = false := by decide
 
 /-! ## Witness: the unchanged tree (D3) and embedded shells -/
 
